@@ -94,7 +94,11 @@ def run(ctx):
                    not missing, "not reached: %s" % missing)
         # the known ReceiveBits defect is re-derived on the real code on every run
         rederived = [f for f in ctx.fails if f.get("sig") == "c06-bits-corr"]
-        ctx.coverage["receivebits_defect_rederived_cases"] = c.get("oracle_fail", 0) and len(rederived)
+        ctx.coverage["receivebits_defect_rederived_cases_kept"] = len(rederived)
+        ctx.oblige("the ReceiveBits defect (known finding, Lean: C06_iknp_bits_corr_fails) is re-derived by the oracle "
+                   "on the real code", len(rederived) > 0,
+                   "no packed-bit failure seen although the model (byte-exact with the code) predicts failures for "
+                   "every count with 1 <= n % 64 <= 56, Delta.Bit(0) = 1 and a set choice bit in the tail")
         if ctx.broken and not [f for f in ctx.fails if not ctx.is_known(f)]:
             # widened search for a concrete failing input (oracle only)
             for s in range(ctx.seed + 7000, ctx.seed + 7004):
@@ -110,8 +114,8 @@ def run(ctx):
         "and extreme Delta; base OT ideal (deterministic) or real Chou-Orlandi; transports ot.Pipe and p2p.Pipe; "
         "COT/ROT x malicious x shared with re-initialisation between batches. distinct = distinct op lines "
         "(each is a full tape + batch list). proto mode (oracle only): CO protocol, CO helpers on P-256/224/384/521, "
-        "CO and RSA single-transfer APIs, RSA protocol (1024/1536/2048-bit keys), COT/ROT over real CO (RSA in "
-        "thorough).")
+        "CO and RSA single-transfer APIs, RSA protocol (1024/1536/2048-bit keys), COT/ROT over real CO; thorough tier records a probe of COT over an RSA base (role inversion, evidence "
+        "only).")
     ctx.assumptions += [
         "the block cipher / PRG is an arbitrary function in every theorem; Lean AES only matters for the byte-exact comparison",
         "IKNP theorems are relative to BaseOK (the 128 base OTs delivered the keys selected by Delta); base OT correctness is the CO / RSA part of this property",
